@@ -49,7 +49,8 @@ ArmDPReg(w) ==
       op  == DPNames[opc + 1]
       o2  == RegO2(Slice(w, 3, 0), ImmShift(Slice(w, 6, 5), Slice(w, 11, 7)))
       sbz == (opc \in 8..11 /\ d # 0) \/ (opc \in {13, 15} /\ n # 0)
-  IN IF opc \notin 8..11 /\ d = 15 /\ S THEN [k |-> "excret", enc |-> "SUBS_PC_LR_r_A1", unp |-> FALSE]
+  IN IF opc \notin 8..11 /\ d = 15 /\ S
+     THEN [k |-> "excret", enc |-> "SUBS_PC_LR_r_A1", eret |-> FALSE, op |-> op, n |-> n, o2 |-> o2, unp |-> opc \in {13, 15} /\ n # 0]
      ELSE DP(op \o "_r_A1", op, d, n, S, o2, sbz)
 ArmDPRsr(w) ==
   LET opc == Slice(w, 24, 21)  S == Bit(w, 20) = 1  n == Slice(w, 19, 16)  d == Slice(w, 15, 12)
@@ -63,7 +64,8 @@ ArmDPImm(w) ==
       op  == DPNames[opc + 1]
       o2  == [t |-> "aimm", imm12 |-> Slice(w, 11, 0)]
       sbz == (opc \in 8..11 /\ d # 0) \/ (opc \in {13, 15} /\ n # 0)
-  IN IF opc \notin 8..11 /\ d = 15 /\ S THEN [k |-> "excret", enc |-> "SUBS_PC_LR_i_A1", unp |-> FALSE]
+  IN IF opc \notin 8..11 /\ d = 15 /\ S
+     THEN [k |-> "excret", enc |-> "SUBS_PC_LR_i_A1", eret |-> FALSE, op |-> op, n |-> n, o2 |-> o2, unp |-> opc \in {13, 15} /\ n # 0]
      ELSE DP(op \o "_i_A1", op, d, n, S, o2, sbz)
 
 
@@ -125,14 +127,32 @@ ArmLSM(w, dx) ==
       n == Slice(w, 19, 16)  regs == Lo(w)
       am == IF P = 0 THEN (IF U = 1 THEN "IA" ELSE "DA") ELSE (IF U = 1 THEN "IB" ELSE "DB")
       nm == (IF L = 1 THEN "LDM" ELSE "STM") \o am
-  IN IF S = 1 THEN Unspec("arm-ldm-stm-user-excret")
+  IN IF S = 1
+     THEN IF L = 1 /\ RegIn(regs, 15)
+          THEN [k |-> "ldmx", enc |-> "LDM_excret_A1", kind |-> "excret", n |-> n, regs |-> regs % 32768, wback |-> W = 1, am |-> am,
+                unp |-> n = 15 \/ (W = 1 /\ RegIn(regs, n) /\ dx.arch >= 7)]
+          ELSE IF L = 1
+          THEN [k |-> "ldmx", enc |-> "LDM_user_A1", kind |-> "user", n |-> n, regs |-> regs, wback |-> FALSE, am |-> am,
+                unp |-> n = 15 \/ PopCnt16(regs) < 1 \/ W = 1]
+          ELSE [k |-> "stmu", enc |-> "STM_user_A1", n |-> n, regs |-> regs, wback |-> FALSE, am |-> am,
+                unp |-> n = 15 \/ PopCnt16(regs) < 1 \/ W = 1]
      ELSE LSM(nm \o "_A1", L = 1, n, regs, W = 1, am,
               n = 15 \/ PopCnt16(regs) < 1 \/ (L = 1 /\ W = 1 /\ RegIn(regs, n) /\ dx.arch >= 7))
 
 ArmMisc(w) ==
   LET op2 == Slice(w, 6, 4)  op == Slice(w, 22, 21)  m == Slice(w, 3, 0)
       sbo == Slice(w, 19, 8) = 4095
-  IN CASE op2 = 1 /\ op = 1 -> [k |-> "bx", enc |-> "BX_A1", m |-> m, unp |-> ~sbo]
+  IN CASE op2 = 0 /\ Bit(w, 9) = 0 /\ op % 2 = 0 ->
+            [k |-> "mrs", enc |-> "MRS_A1", spsr |-> Bit(w, 22) = 1, d |-> Slice(w, 15, 12),
+             unp |-> Slice(w, 15, 12) = 15 \/ Slice(w, 19, 16) # 15 \/ Slice(w, 11, 0) # 0]
+       [] op2 = 0 /\ Bit(w, 9) = 0 /\ op % 2 = 1 ->
+            [k |-> "msr", enc |-> "MSR_r_A1", spsr |-> Bit(w, 22) = 1, mask |-> Slice(w, 19, 16),
+             src |-> [t |-> "reg", n |-> m],
+             unp |-> m = 15 \/ Slice(w, 19, 16) = 0 \/ Slice(w, 15, 12) # 15 \/ Slice(w, 11, 8) # 0]
+       [] op2 = 7 /\ op = 3 -> [k |-> "smc", enc |-> "SMC_A1", unp |-> Slice(w, 19, 8) # 0]
+       \* ERET A1 belongs to the Virtualization Extensions, which the emulator documents as not implemented in ARM state
+       [] op2 = 6 /\ op = 3 -> Unspec("arm-eret-virt-ext")
+       [] op2 = 1 /\ op = 1 -> [k |-> "bx", enc |-> "BX_A1", m |-> m, unp |-> ~sbo]
        [] op2 = 3 /\ op = 1 -> [k |-> "blxr", enc |-> "BLX_r_A1", m |-> m, unp |-> m = 15 \/ ~sbo]
        [] OTHER -> Unspec("arm-misc")
 
@@ -154,7 +174,16 @@ ArmDPMisc(w, dx) ==
                                  imm16 |-> Slice(w, 19, 16) * 4096 + Slice(w, 11, 0), unp |-> Slice(w, 15, 12) = 15]
                  [] op1 = 20 -> [k |-> "movt", enc |-> "MOVT_A1", d |-> Slice(w, 15, 12),
                                  imm16 |-> Slice(w, 19, 16) * 4096 + Slice(w, 11, 0), unp |-> Slice(w, 15, 12) = 15]
-                 [] OTHER    -> Unspec("arm-msr-imm-hints")
+                 [] OTHER    ->                       \* 10x10: MSR (immediate) and hints
+                      LET R == Bit(w, 22)  mask == Slice(w, 19, 16)  h == Slice(w, 7, 0) IN
+                      IF R = 0 /\ mask = 0
+                      THEN (IF h \in 0..4
+                            THEN [k |-> "hint", enc |-> "HINT_A1", h |-> <<"NOP", "YIELD", "WFE", "WFI", "SEV">>[h + 1],
+                                  unp |-> Slice(w, 15, 8) # 240]
+                            ELSE Unspec("arm-hint-dbg-unallocated"))
+                      ELSE [k |-> "msr", enc |-> "MSR_i_A1", spsr |-> R = 1, mask |-> mask,
+                            src |-> [t |-> "aimm", imm12 |-> Slice(w, 11, 0)],
+                            unp |-> mask = 0 \/ Slice(w, 15, 12) # 15]
 
 ArmBranchBlock(w, dx) ==
   IF Bit(w, 25) = 1
@@ -164,7 +193,22 @@ ArmBranchBlock(w, dx) ==
   ELSE ArmLSM(w, dx)
 
 ArmUncond(w) ==
-  IF Slice(w, 27, 25) = 5
+  LET op1 == Slice(w, 27, 20) IN
+  IF op1 = 16 /\ Bit(w, 16) = 0 /\ Bit(w, 5) = 0
+  THEN LET imod == Slice(w, 19, 18)  Mb == Bit(w, 17)  aif == Slice(w, 8, 6)  mode == Slice(w, 4, 0) IN
+       [k |-> "cps", enc |-> "CPS_A1", enable |-> imod = 2, disable |-> imod = 3, a |-> Bit(w, 8) = 1, i_ |-> Bit(w, 7) = 1,
+        f |-> Bit(w, 6) = 1, changemode |-> Mb = 1, mode |-> mode,
+        unp |-> (mode # 0 /\ Mb = 0) \/ (imod \div 2 = 1 /\ aif = 0) \/ (imod \div 2 = 0 /\ aif # 0) \/
+                (imod = 0 /\ Mb = 0) \/ imod = 1 \/ Slice(w, 15, 9) # 0]
+  ELSE IF op1 = 16 /\ Bit(w, 16) = 1 /\ Slice(w, 7, 4) = 0
+  THEN [k |-> "setend", enc |-> "SETEND_A1", e |-> Bit(w, 9), unp |-> Slice(w, 19, 17) # 0 \/ Slice(w, 15, 10) # 0 \/ Slice(w, 8, 8) # 0 \/ Slice(w, 3, 0) # 0]
+  ELSE IF Slice(w, 27, 25) = 4 /\ Bit(w, 22) = 1 /\ Bit(w, 20) = 0
+  THEN [k |-> "srs", enc |-> "SRS_A1", mode |-> Slice(w, 4, 0), wback |-> Bit(w, 21) = 1, inc |-> Bit(w, 23) = 1,
+        wordhigher |-> Bit(w, 24) = Bit(w, 23), unp |-> Slice(w, 19, 5) # 26664]
+  ELSE IF Slice(w, 27, 25) = 4 /\ Bit(w, 22) = 0 /\ Bit(w, 20) = 1
+  THEN [k |-> "rfe", enc |-> "RFE_A1", n |-> Slice(w, 19, 16), wback |-> Bit(w, 21) = 1, inc |-> Bit(w, 23) = 1,
+        wordhigher |-> Bit(w, 24) = Bit(w, 23), unp |-> Slice(w, 19, 16) = 15 \/ Lo(w) # 2560]
+  ELSE IF Slice(w, 27, 25) = 5
   THEN [k |-> "bl", enc |-> "BLX_i_A2", tiset |-> "THUMB", unp |-> FALSE,
         imm |-> SignExtW(WOr(LSLw(ExtractW(w, 23, 0), 2), <<0, Bit(w, 24) * 2>>), 26)]
   ELSE Unspec("arm-unconditional")
@@ -176,7 +220,8 @@ ArmDecode(w, dx) ==
          [] op1 = 2 -> ArmLSWord(w, dx)
          [] op1 = 3 -> IF Bit(w, 4) = 0 THEN ArmLSWord(w, dx) ELSE Unspec("arm-media")
          [] op1 \in {4, 5} -> ArmBranchBlock(w, dx)
-         [] op1 \in {6, 7} -> Unspec("arm-coproc-svc")
+         [] op1 \in {6, 7} -> IF Slice(w, 25, 24) = 3 THEN [k |-> "svc", enc |-> "SVC_A1", imm |-> Lo(w), unp |-> FALSE]
+                               ELSE Unspec("arm-coproc")
 
 -----------------------------------------------------------------------------
 (* Thumb, 16-bit.  h is the halfword as a Nat. *)
@@ -268,7 +313,15 @@ T16Misc(h, dx) ==
          IF Bits(h, 3, 0) # 0
          THEN [k |-> "it", enc |-> "IT_T1", fc |-> Bits(h, 7, 4), mask |-> Bits(h, 3, 0),
                unp |-> ~ITLegal(Bits(h, 7, 4), Bits(h, 3, 0)) \/ InITBlock(dx.it)]
-         ELSE Unspec("t16-hints")
+         ELSE IF Bits(h, 7, 4) \in 0..4
+              THEN [k |-> "hint", enc |-> "HINT_T1", h |-> <<"NOP", "YIELD", "WFE", "WFI", "SEV">>[Bits(h, 7, 4) + 1], unp |-> FALSE]
+              ELSE Unspec("t16-hints-unallocated")
+    [] Bits(h, 11, 5) = 50 -> [k |-> "setend", enc |-> "SETEND_T1", e |-> Bits(h, 3, 3),
+                               unp |-> InITBlock(dx.it) \/ Bits(h, 4, 4) # 1 \/ Bits(h, 2, 0) # 0]
+    [] Bits(h, 11, 5) = 51 -> [k |-> "cps", enc |-> "CPS_T1", enable |-> Bits(h, 4, 4) = 0, disable |-> Bits(h, 4, 4) = 1,
+                               a |-> Bits(h, 2, 2) = 1, i_ |-> Bits(h, 1, 1) = 1, f |-> Bits(h, 0, 0) = 1,
+                               changemode |-> FALSE, mode |-> 0,
+                               unp |-> InITBlock(dx.it) \/ Bits(h, 2, 0) = 0 \/ Bits(h, 3, 3) # 0]
     [] OTHER -> Unspec("t16-misc")
 
 T16CondBranchSvc(h, dx) ==
@@ -391,7 +444,12 @@ T32LSM(w, dx) ==
   LET op == Slice(w, 24, 23)  W == Bit(w, 21)  L == Bit(w, 20)  n == Slice(w, 19, 16)
       regs == Lo(w)  P == Bit(w, 15)  Mb == Bit(w, 14)
       midIT == InITBlock(dx.it) /\ ~LastInITBlock(dx.it)
-  IN IF op \in {0, 3} THEN Unspec("t32-srs-rfe")
+  IN IF op \in {0, 3}
+     THEN IF L = 1
+          THEN [k |-> "rfe", enc |-> "RFE_T", n |-> n, wback |-> W = 1, inc |-> op = 3, wordhigher |-> FALSE,
+                unp |-> n = 15 \/ Lo(w) # 49152 \/ midIT]
+          ELSE [k |-> "srs", enc |-> "SRS_T", mode |-> Slice(w, 4, 0), wback |-> W = 1, inc |-> op = 3, wordhigher |-> FALSE,
+                unp |-> n # 13 \/ Slice(w, 15, 5) # 1536]
      ELSE LET am == IF op = 1 THEN "IA" ELSE "DB"
               nm == (IF L = 1 THEN "LDM" ELSE "STM") \o am \o "_T2" IN
           IF L = 1
@@ -405,6 +463,7 @@ T32BranchMisc(w, dx) ==
       S == Bit(w, 26)  J1 == Bit(w, 13)  J2 == Bit(w, 11)
       I1 == 1 - ((J1 + S) % 2)  I2 == 1 - ((J2 + S) % 2)
       midIT == InITBlock(dx.it) /\ ~LastInITBlock(dx.it)
+      midITx == midIT
       \* S:I1:I2:imm10:imm11:'0' as a 25-bit quantity in a word
       off25 == WOr(WOr(<<S * 256 + I1 * 128 + I2 * 64, 0>>, LSLw(<<0, Slice(w, 25, 16)>>, 12)),
                    <<0, Slice(w, 10, 0) * 2>>)
@@ -413,7 +472,33 @@ T32BranchMisc(w, dx) ==
             THEN [k |-> "b", enc |-> "B_T3", cond |-> Slice(w, 25, 22), unp |-> InITBlock(dx.it),
                   imm |-> SignExtW(WOr(WOr(<<S * 16 + J2 * 8 + J1 * 4, 0>>, LSLw(<<0, Slice(w, 21, 16)>>, 12)),
                                        <<0, Slice(w, 10, 0) * 2>>), 21)]
-            ELSE Unspec("t32-misc-control")
+            ELSE CASE op \in {56, 57} ->
+                        [k |-> "msr", enc |-> "MSR_r_T1", spsr |-> Bit(w, 20) = 1, mask |-> Slice(w, 11, 8),
+                         src |-> [t |-> "reg", n |-> Slice(w, 19, 16)],
+                         unp |-> Slice(w, 11, 8) = 0 \/ BadReg(Slice(w, 19, 16)) \/ Slice(w, 7, 0) # 0 \/ Bit(w, 13) # 0]
+                   [] op = 58 /\ Slice(w, 10, 8) = 0 ->
+                        IF Slice(w, 7, 0) \in 0..4
+                        THEN [k |-> "hint", enc |-> "HINT_T2", h |-> <<"NOP", "YIELD", "WFE", "WFI", "SEV">>[Slice(w, 7, 0) + 1],
+                              unp |-> Slice(w, 19, 16) # 15 \/ Bit(w, 13) # 0 \/ Bit(w, 11) # 0]
+                        ELSE Unspec("t32-hint-dbg-unallocated")
+                   [] op = 58 ->
+                        LET imod == Slice(w, 10, 9)  Mb == Bit(w, 8)  aif == Slice(w, 7, 5)  mode == Slice(w, 4, 0) IN
+                        [k |-> "cps", enc |-> "CPS_T2", enable |-> imod = 2, disable |-> imod = 3, a |-> Bit(w, 7) = 1,
+                         i_ |-> Bit(w, 6) = 1, f |-> Bit(w, 5) = 1, changemode |-> Mb = 1, mode |-> mode,
+                         unp |-> (mode # 0 /\ Mb = 0) \/ (imod \div 2 = 1 /\ aif = 0) \/ (imod \div 2 = 0 /\ aif # 0) \/
+                                 imod = 1 \/ InITBlock(dx.it) \/ Slice(w, 19, 16) # 15 \/ Bit(w, 13) # 0 \/ Bit(w, 11) # 0]
+                   [] op = 61 ->
+                        IF dx.hyp /\ Slice(w, 7, 0) # 0 THEN Undef          \* SUBS PC, LR is UNDEFINED in Hyp mode (decode-time check)
+                        ELSE
+                        [k |-> "excret", enc |-> IF Slice(w, 7, 0) = 0 THEN "ERET_T1" ELSE "SUBS_PC_LR_T1",
+                              eret |-> Slice(w, 7, 0) = 0, op |-> "SUB", n |-> 14, o2 |-> ImmO2(Slice(w, 7, 0)),
+                              unp |-> midITx \/ Slice(w, 19, 16) # 14 \/ Slice(w, 11, 8) # 15 \/ Bit(w, 13) # 0]
+                   [] op \in {62, 63} ->
+                        [k |-> "mrs", enc |-> "MRS_T1", spsr |-> Bit(w, 20) = 1, d |-> Slice(w, 11, 8),
+                         unp |-> BadReg(Slice(w, 11, 8)) \/ Slice(w, 19, 16) # 15 \/ Slice(w, 7, 0) # 0 \/ Bit(w, 13) # 0]
+                   [] op = 127 /\ op1 = 0 -> [k |-> "smc", enc |-> "SMC_T1", unp |-> midITx \/ Slice(w, 11, 0) # 0]
+                   [] op = 127 /\ op1 = 2 -> [k |-> "undef", enc |-> "UDF_T2", unp |-> FALSE]
+                   [] OTHER -> Unspec("t32-misc-control")
        [] op1 \in {1, 3} -> [k |-> "b", enc |-> "B_T4", imm |-> SignExtW(off25, 25), unp |-> midIT]
        [] op1 \in {5, 7} -> [k |-> "bl", enc |-> "BL_T1", tiset |-> "THUMB", imm |-> SignExtW(off25, 25), unp |-> midIT]
        [] op1 \in {4, 6} -> IF Bit(w, 0) = 1 THEN Undef
